@@ -22,6 +22,8 @@ ASSUMPTIONS = ["the reference table is produced by a four-nested-loop enumeratio
 BUDGET = {"quick": 120, "thorough": 1500}
 JOBS = {"quick": 4, "thorough": 16}
 LEVEL = "exploration"
+# reach pass: one case of the exhaustive / smooth workloads is thousands of calls of pure-Python loops (slow under line monitoring)
+REACH_CASES = {"exhaustive": 2, "smooth": 6, "special": 6}
 
 
 CALL_DEADLINE_S = 20.0
